@@ -5,32 +5,35 @@
    Level: the syntactic half (str(ddl) read back = the description) is proved; the engine half
    (SQLite PRAGMAs) is validated by harness/props/C17.py, not proved. *)
 From Coq Require Import Permutation.
-From PV Require Import Base gen.C17Table Ddl lemmas.DdlStrings lemmas.DdlItems lemmas.DdlBuild lemmas.DdlCreate lemmas.DdlDrop lemmas.DdlIndex.
+From PV Require Import Base gen.C17Table Ddl lemmas.DdlStrings lemmas.DdlItems lemmas.DdlBuild lemmas.DdlCreate lemmas.DdlDrop lemmas.DdlIndex lemmas.DdlApi.
 
 (* CREATE TABLE: for every builder class, every table, every program of option calls the builder
    accepts (any order) whose description is one the property speaks about ([spec_ok]: quote-free
    names, balanced opaque types/defaults, TEMPORARY xor UNLOGGED, AS SELECT xor a column body with
    at least one column), the printed statement is read back as exactly the description [ast_of]:
-   every column and constraint once, in the order given, with the attributes given, and every flag. *)
+   every column and constraint once, in the order given, with the attributes given, and every flag.
+   The builder is the one as called ([api_build]: Table arguments pass through _ddl_target, so an
+   alias they carry is not part of the description: [api_spec_ok]/[api_ast_of] are [spec_ok]/[ast_of]
+   of the alias-free program and put no condition on aliases). *)
 Definition C17_create_statement (frag : ccls -> list ccall -> bool) : Prop :=
   forall cls t calls st,
-    build cls t calls = Ok st ->
-    spec_ok (create_quote cls) t calls = true ->
+    api_build cls t calls = Ok st ->
+    api_spec_ok (create_quote cls) t calls = true ->
     frag cls calls = true ->
-    parse_create (create_quote cls) (render_create cls st) = Some (ast_of t calls).
+    parse_create (create_quote cls) (render_create cls st) = Some (api_ast_of t calls).
 
 (* CREATE INDEX: for every program of calls, the statement is printed and names the given index,
    table, columns and options *)
 Definition C17_index_statement (frag : istate -> bool) : Prop :=
-  forall i calls, frag (ibuild i calls) = true ->
-    exists s, render_index (ibuild i calls) = Ok s /\ parse_index s = Some (index_ast_of i calls).
+  forall i calls, frag (api_ibuild i calls) = true ->
+    exists s, render_index (api_ibuild i calls) = Ok s /\ parse_index s = Some (index_ast_of i (map norm_icall calls)).
 
 (* DROP: for every drop builder class and every accepted program, the statement names the object of
    the (last) drop_xxx call, IF EXISTS iff if_exists() was called, and the cluster given *)
 Definition C17_drop_statement : Prop :=
   forall cls calls st k tg,
-    drun cls init_dstate calls = Ok st ->
-    last_drop calls = Some (k, tg) ->
+    api_drun cls init_dstate calls = Ok st ->
+    last_drop (map norm_dcall calls) = Some (k, tg) ->
     target_ok (drop_quote cls) tg = true ->
     (match last_cluster calls with Some c => name_ok cluster_quote c | None => true end) = true ->
     parse_drop (drop_quote cls) cluster_quote (render_drop cls st)
@@ -46,16 +49,16 @@ Definition w_table := tbl "t".
    (since 1e06637 the Vertica builder rejects unlogged() instead of dropping it, since d178bc5 it prints
    IF NOT EXISTS: no class/flag combination is left out) *)
 Theorem C17_create_holds : C17_create_statement (fun _ _ => true).
-Proof. intros cls t calls st H Hs _. exact (create_roundtrip_all cls t calls st H Hs). Qed.
+Proof. intros cls t calls st H Hs _. exact (api_create_roundtrip cls t calls st H Hs). Qed.
 Print Assumptions C17_create_holds.
 
 Theorem C17_drop_holds : C17_drop_statement.
-Proof. exact drop_roundtrip. Qed.
+Proof. exact api_drop_roundtrip. Qed.
 Print Assumptions C17_drop_holds.
 
 (* an accepted program never contains a flag call its class cannot print *)
-Theorem C17_accepted_flags_printable : forall cls t calls st, build cls t calls = Ok st -> create_frag cls calls = true.
-Proof. exact accepted_create_frag. Qed.
+Theorem C17_accepted_flags_printable : forall cls t calls st, api_build cls t calls = Ok st -> create_frag cls calls = true.
+Proof. exact api_accepted_create_frag. Qed.
 Print Assumptions C17_accepted_flags_printable.
 
 (* ---- refuted: the faithful model reproduces the one remaining defect of the code ----
@@ -69,20 +72,31 @@ Proof.
 Qed.
 Print Assumptions C17_index_refuted_unquoted.
 
-(* A Table object carrying an alias (shared with a SELECT) handed to a DDL builder: Table.get_sql
-   appends the alias, and the statement is no longer one that names the table - in all four places a
-   table is taken. [table_ok] (the hypothesis of the theorems above) asks for alias-free targets;
-   [table_wide] is what a caller may pass. *)
+(* ---- a Table object carrying an alias (shared with a SELECT) as DDL target (fixed in 70f811c) ----
+   the alias makes no difference to any DDL statement, in all four places a table is taken; and the
+   hypotheses of the theorems above only look at the names ([table_wide]: any alias) *)
+Theorem C17_alias_independent :
+  (forall cls t calls, create_text cls t calls = create_text cls (ddl_target t) (map norm_ccall calls))
+  /\ (forall i calls, index_text i calls = index_text i (map norm_icall calls))
+  /\ (forall cls calls, drop_text cls calls = drop_text cls (map norm_dcall calls)).
+Proof. exact alias_independent. Qed.
+Print Assumptions C17_alias_independent.
+
+Theorem C17_alias_free_hypotheses : forall q t, table_wide q t = true -> table_ok q (ddl_target t) = true.
+Proof. exact table_wide_target. Qed.
+Print Assumptions C17_alias_free_hypotheses.
+
 Definition w_aliased := mk_table "t" ["s"] (Some "x").
-Theorem C17_alias_refuted :
+Example C17_alias_holds :
   table_wide QDouble w_aliased = true
-  /\ drop_text DGeneric [DDrop KTable (DTTable w_aliased)] = "DROP TABLE ""s"".""t"" ""x"""
-  /\ parse_drop QDouble QDouble (drop_text DGeneric [DDrop KTable (DTTable w_aliased)]) = None
-  /\ parse_create QDouble (create_text CGeneric w_aliased [KColumns [CAStr "a"]]) = None
-  /\ parse_create QDouble (create_text CGeneric w_table [KColumns [CAStr "a"]; KForeignKey ["a"] w_aliased ["b"] None None]) = None
-  /\ parse_index (index_text (INStr "i") [XOn (ITObj w_aliased); XColumns [CAStr "a"]]) = None.
+  /\ drop_text DGeneric [DDrop KTable (DTTable w_aliased)] = "DROP TABLE ""s"".""t"""
+  /\ option_map y_target (parse_drop QDouble QDouble (drop_text DGeneric [DDrop KTable (DTTable w_aliased)])) = Some (tbls "s" "t")
+  /\ option_map a_table (parse_create QDouble (create_text CGeneric w_aliased [KColumns [CAStr "a"]])) = Some (tbls "s" "t")
+  /\ create_text CGeneric w_table [KColumns [CAStr "a"]; KForeignKey ["a"] w_aliased ["b"] None None]
+     = "CREATE TABLE ""t"" (""a"",FOREIGN KEY (""a"") REFERENCES ""s"".""t"" (""b""))"
+  /\ option_map x_table (parse_index (index_text (INStr "i") [XOn (ITObj w_aliased); XColumns [CAStr "a"]])) = Some (tbls "s" "t").
 Proof. vm_compute. repeat split. Qed.
-Print Assumptions C17_alias_refuted.
+Print Assumptions C17_alias_holds.
 
 Theorem C17_refuted : ~ C17_full_statement.
 Proof. intros [_ [H _]]. exact (C17_index_refuted_unquoted H). Qed.
@@ -96,56 +110,56 @@ Print Assumptions C17_refuted.
 Theorem C17_on_fragment :
   C17_create_statement (fun _ _ => true) /\ C17_index_statement index_frag /\ C17_drop_statement.
 Proof.
-  split; [exact C17_create_holds|]. split; [exact index_roundtrip | exact drop_roundtrip].
+  split; [exact C17_create_holds|]. split; [exact api_index_roundtrip | exact api_drop_roundtrip].
 Qed.
 Print Assumptions C17_on_fragment.
 
 (* ---- "for all orders of the option calls" ---- *)
 (* a program the builder accepts leaves the described state, whatever the order of its calls *)
-Theorem C17_state_is_description : forall cls t calls st, build cls t calls = Ok st -> st = state_of t calls.
-Proof. exact build_state. Qed.
+Theorem C17_state_is_description : forall cls t calls st, api_build cls t calls = Ok st -> st = api_state_of t calls.
+Proof. exact api_build_state. Qed.
 Print Assumptions C17_state_is_description.
 
 (* any two accepted orders of the same calls (flag calls anywhere, the others in the same relative
    order) print the same statement *)
 Theorem C17_order_invariant : forall cls t c1 c2 s1 s2,
-  build cls t c1 = Ok s1 -> build cls t c2 = Ok s2 ->
+  api_build cls t c1 = Ok s1 -> api_build cls t c2 = Ok s2 ->
   Permutation c1 c2 -> filter structural c1 = filter structural c2 ->
   s1 = s2 /\ render_create cls s1 = render_create cls s2.
-Proof. exact build_order_invariant. Qed.
+Proof. exact api_order_invariant. Qed.
 Print Assumptions C17_order_invariant.
 
 (* temporary/unlogged/with_system_versioning/if_not_exists commute with any neighbouring call -
    same builder, same error - except temporary() before Vertica's local()/preserve_rows() *)
 Theorem C17_flag_calls_commute : forall cls l1 f c l2 st, is_flag_call f = true ->
   (is_call_temporary f && reads_temporary c)%bool = false ->
-  run cls st (l1 ++ f :: c :: l2) = run cls st (l1 ++ c :: f :: l2).
-Proof. exact flag_call_commutes. Qed.
+  api_run cls st (l1 ++ f :: c :: l2) = api_run cls st (l1 ++ c :: f :: l2).
+Proof. exact api_flag_call_commutes. Qed.
 Print Assumptions C17_flag_calls_commute.
 
 (* the once-only guards raise AttributeError (primary_key/foreign_key: as soon as the slot is not None) *)
 Theorem C17_guards : forall cls st,
-  (forall t, is_some (s_table st) = true -> step cls st (KCreateTable t) = Err "AttributeError")
-  /\ (forall ns, pk_set st = true -> step cls st (KPrimaryKey ns) = Err "AttributeError")
-  /\ (forall a t b od ou, fk_set st = true -> step cls st (KForeignKey a t b od ou) = Err "AttributeError")
-  /\ (forall cs, is_some (s_as_select st) = true -> step cls st (KColumns cs) = Err "AttributeError")
-  /\ (forall q, nonempty (s_columns st) = true -> step cls st (KAsSelect q) = Err "AttributeError")
+  (forall t, is_some (s_table st) = true -> api_step cls st (KCreateTable t) = Err "AttributeError")
+  /\ (forall ns, pk_set st = true -> api_step cls st (KPrimaryKey ns) = Err "AttributeError")
+  /\ (forall a t b od ou, fk_set st = true -> api_step cls st (KForeignKey a t b od ou) = Err "AttributeError")
+  /\ (forall cs, is_some (s_as_select st) = true -> api_step cls st (KColumns cs) = Err "AttributeError")
+  /\ (forall q, nonempty (s_columns st) = true -> api_step cls st (KAsSelect q) = Err "AttributeError")
   /\ ((has_vertica_flags cls && s_temporary st)%bool = false ->
-      step cls st KLocal = Err "AttributeError" /\ step cls st KPreserveRows = Err "AttributeError").
-Proof. exact create_guards. Qed.
+      api_step cls st KLocal = Err "AttributeError" /\ api_step cls st KPreserveRows = Err "AttributeError").
+Proof. exact api_create_guards. Qed.
 Print Assumptions C17_guards.
 
 (* programs without once-only conflicts are accepted, in every order (so the theorems are not vacuous) *)
 Theorem C17_simple_programs_accepted : forall cls t calls, simple_program calls = true -> create_frag cls calls = true ->
-  exists st, build cls t calls = Ok st.
-Proof. exact simple_program_accepted. Qed.
+  exists st, api_build cls t calls = Ok st.
+Proof. exact api_simple_program_accepted. Qed.
 Print Assumptions C17_simple_programs_accepted.
 
 Theorem C17_drop_programs_accepted : forall cls k tg pre post,
   (is_ch_kind k && negb (has_clickhouse_drops cls))%bool = false ->
   forallb is_dcall_if_exists pre = true -> forallb is_dcall_if_exists post = true ->
-  exists st, drun cls init_dstate (pre ++ DDrop k tg :: post) = Ok st.
-Proof. exact drop_program_accepted. Qed.
+  exists st, api_drun cls init_dstate (pre ++ DDrop k tg :: post) = Ok st.
+Proof. exact api_drop_program_accepted. Qed.
 Print Assumptions C17_drop_programs_accepted.
 
 (* ---- the class constants read off the code are the documented ones ---- *)
@@ -211,9 +225,9 @@ Definition ex_calls : list ccall :=
 
 Example C17_example_create :
   forall cls,
-    exists st, build cls w_table ex_calls = Ok st
-      /\ spec_ok (create_quote cls) w_table ex_calls = true /\ create_frag cls ex_calls = true
-      /\ parse_create (create_quote cls) (render_create cls st) = Some (ast_of w_table ex_calls).
+    exists st, api_build cls w_table ex_calls = Ok st
+      /\ api_spec_ok (create_quote cls) w_table ex_calls = true /\ create_frag cls ex_calls = true
+      /\ parse_create (create_quote cls) (render_create cls st) = Some (api_ast_of w_table ex_calls).
 Proof.
   intros []; (eexists; split; [vm_compute; reflexivity|]); vm_compute; repeat split; reflexivity.
 Qed.
@@ -234,16 +248,16 @@ Print Assumptions C17_example_text.
 
 Example C17_example_vertica :
   let calls := [KTemporary; KColumns [CAStr "a"; CATuple "my col" "DOUBLE PRECISION"]; KPreserveRows; KIfNotExists; KLocal; KUnique ["my col"; "a"]] in
-  exists st, build CVertica w_table calls = Ok st
-    /\ spec_ok QDouble w_table calls = true /\ create_frag CVertica calls = true
-    /\ parse_create QDouble (render_create CVertica st) = Some (ast_of w_table calls).
+  exists st, api_build CVertica w_table calls = Ok st
+    /\ api_spec_ok QDouble w_table calls = true /\ create_frag CVertica calls = true
+    /\ parse_create QDouble (render_create CVertica st) = Some (api_ast_of w_table calls).
 Proof. eexists; split; [vm_compute; reflexivity|]; vm_compute; repeat split; reflexivity. Qed.
 Print Assumptions C17_example_vertica.
 
 Example C17_example_index :
   let calls := [XWhere """a"">1"; XUnique; XColumns [CAStr "a"; CATuple "b" "INT"]; XOn (ITObj (mk_table "my  t" ["db"; "s"] None)); XIfNotExists; XWhere """c"" IS NULL"] in
-  index_frag (ibuild (INStr "my idx") calls) = true
-  /\ render_index (ibuild (INStr "my idx") calls)
+  index_frag (api_ibuild (INStr "my idx") calls) = true
+  /\ render_index (api_ibuild (INStr "my idx") calls)
      = Ok "CREATE UNIQUE INDEX IF NOT EXISTS ""my idx"" ON ""db"".""s"".""my  t""(a, b) WHERE ""a"">1 AND ""c"" IS NULL"
   /\ option_map x_cols (parse_index "CREATE UNIQUE INDEX IF NOT EXISTS ""my idx"" ON ""db"".""s"".""my  t""(a, b) WHERE ""a"">1 AND ""c"" IS NULL")
      = Some ["a"; "b"].
